@@ -86,6 +86,7 @@ RunResult exec_plan(const Plan& p, const ExecFlags& f)
             rr.tasks[size_t(t)][i].out = w.tasks[size_t(t)].outs[i];
             rr.tasks[size_t(t)][i].rec = recs[i];
         }
+        if (!rr.tasks[size_t(t)].empty()) rr.tasks[size_t(t)].back().rec.live_after = simrt::task_live(t);
     }
     rr.hash = simrt::run_hash();
     // outcomes are part of the history as well
